@@ -77,6 +77,10 @@ struct C15 {
     scan: Option<Vec<SRow>>,
     frag_idx: usize,
     synth: Option<Vec<SynthFrag>>,
+    /// a real call did not return: stop calling the real code (its thread is still spinning)
+    poisoned: bool,
+    /// worker thread (own runtime) that executes the random-access calls, so that the main thread can time out
+    worker: Option<(std::sync::mpsc::Sender<(Dataset, String, Req)>, std::sync::mpsc::Receiver<Outcome>)>,
 }
 
 fn schema() -> Arc<Schema> {
@@ -170,6 +174,43 @@ enum Outcome {
     Err(&'static str),
     Panic(String),
     Garbled,
+    /// the call did not return within the watchdog time (a spinning loop); the harness stops calling the real code
+    NoReturn,
+    Skipped,
+}
+
+/// one random-access request; executed on its own thread and runtime so that a call that never returns can be reported
+enum Req {
+    Take(Vec<u64>),
+    Rows(Vec<u64>),
+    Addr(Vec<u64>),
+}
+
+const WATCHDOG_S: u64 = 12;
+
+fn exec_req(rt: &tokio::runtime::Runtime, ds: Dataset, cols: String, req: Req) -> Outcome {
+    let r = catch_unwind(AssertUnwindSafe(|| {
+        let names: Vec<&str> = cols.chars().map(|c| col_name(c).unwrap()).collect();
+        let pr = ProjectionRequest::from_columns(names, ds.schema());
+        rt.block_on(async {
+            match req {
+                Req::Take(offs) => ds.take(&offs, pr).await,
+                Req::Rows(ids) => ds.take_rows(&ids, pr).await,
+                Req::Addr(addrs) => {
+                    let plan = Arc::new(pr.into_projection_plan(Arc::new(ds.clone()))?);
+                    TakeBuilder::try_new_from_addresses(Arc::new(ds.clone()), addrs, plan)?.execute().await
+                }
+            }
+        })
+    }));
+    match r {
+        Err(e) => Outcome::Panic(panic_msg(e)),
+        Ok(Err(e)) => Outcome::Err(err_kind(&e)),
+        Ok(Ok(b)) => match batch_rows(&b, &cols) {
+            Some(r) => Outcome::Rows(r),
+            None => Outcome::Garbled,
+        },
+    }
 }
 
 impl Outcome {
@@ -179,6 +220,8 @@ impl Outcome {
             Outcome::Err(k) => format!("err {k}"),
             Outcome::Panic(_) => "panic".into(),
             Outcome::Garbled => "garbled".into(),
+            Outcome::NoReturn => "noreturn".into(),
+            Outcome::Skipped => "skipped".into(),
         }
     }
 }
@@ -186,7 +229,7 @@ impl Outcome {
 impl C15 {
     fn new() -> Self {
         let rt = tokio::runtime::Builder::new_current_thread().enable_all().build().unwrap();
-        C15 { rt, ds: None, stable: false, next_k: 0, layout: None, scan: None, frag_idx: 0, synth: None }
+        C15 { rt, ds: None, stable: false, next_k: 0, layout: None, scan: None, frag_idx: 0, synth: None, poisoned: false, worker: None }
     }
 
     fn reset(&mut self) {
@@ -352,25 +395,36 @@ impl C15 {
         Ok(out)
     }
 
-    fn run_take<F>(&self, cols: &str, f: F) -> Outcome
-    where
-        F: std::future::Future<Output = lance::Result<RecordBatch>>,
-    {
-        let r = catch_unwind(AssertUnwindSafe(|| self.rt.block_on(f)));
-        match r {
-            Err(e) => Outcome::Panic(panic_msg(e)),
-            Ok(Err(e)) => Outcome::Err(err_kind(&e)),
-            Ok(Ok(b)) => match batch_rows(&b, cols) {
-                Some(r) => Outcome::Rows(r),
-                None => Outcome::Garbled,
-            },
+    fn run_req(&mut self, cols: &str, req: Req) -> Outcome {
+        if self.poisoned {
+            return Outcome::Skipped;
         }
-    }
-
-    fn projection(&self, cols: &str) -> ProjectionRequest {
-        let ds = self.ds.as_ref().unwrap();
-        let names: Vec<&str> = cols.chars().map(|c| col_name(c).unwrap()).collect();
-        ProjectionRequest::from_columns(names, ds.schema())
+        let ds = self.ds.clone().unwrap();
+        if self.worker.is_none() {
+            let (tx_req, rx_req) = std::sync::mpsc::channel::<(Dataset, String, Req)>();
+            let (tx_res, rx_res) = std::sync::mpsc::channel::<Outcome>();
+            std::thread::spawn(move || {
+                let rt = tokio::runtime::Builder::new_current_thread().enable_all().build().unwrap();
+                while let Ok((ds, cols, req)) = rx_req.recv() {
+                    if tx_res.send(exec_req(&rt, ds, cols, req)).is_err() {
+                        break;
+                    }
+                }
+            });
+            self.worker = Some((tx_req, rx_res));
+        }
+        let (tx, rx) = self.worker.as_ref().unwrap();
+        if tx.send((ds, cols.to_string(), req)).is_err() {
+            self.poisoned = true;
+            return Outcome::NoReturn;
+        }
+        match rx.recv_timeout(std::time::Duration::from_secs(WATCHDOG_S)) {
+            Ok(o) => o,
+            Err(_) => {
+                self.poisoned = true;
+                Outcome::NoReturn
+            }
+        }
     }
 
     /// property oracle for one random-access call: `keys[i]` resolves to `want[i]` (None = not a live row)
@@ -415,6 +469,15 @@ impl C15 {
             Outcome::Garbled => {
                 fails.push(OracleFailure { what: format!("{what}: result misses a requested column"), key: Some(format!("{what}_columns")), line });
             }
+            Outcome::NoReturn => {
+                fails.push(OracleFailure {
+                    what: format!("{what}: the call did not return within {WATCHDOG_S} s"),
+                    key: Some(format!("{what}_noreturn")),
+                    line,
+                });
+                tags.push(format!("{what}:noreturn"));
+            }
+            Outcome::Skipped => {}
         }
     }
 
@@ -540,6 +603,12 @@ impl Prop for C15 {
     fn exec_case(&mut self, lines: &[String]) -> CaseResult {
         self.reset();
         let mut res = CaseResult::default();
+        if self.poisoned {
+            // an earlier real call never returned and is still spinning: do not run anything else
+            res.outputs = lines.iter().map(|_| "skipped".to_string()).collect();
+            res.tags.push("skipped_after_noreturn".into());
+            return res;
+        }
         let mut any_deletion = false;
         let mut any_multi = false;
         for (ln, line) in lines.iter().enumerate() {
@@ -615,56 +684,51 @@ impl Prop for C15 {
                             let ids: Vec<u64> = rows.iter().map(|r| r.rowid).collect();
                             let addrs: Vec<u64> = rows.iter().map(|r| r.addr).collect();
                             let want: Vec<Option<SRow>> = rows.iter().cloned().map(Some).collect();
-                            let ds = self.ds.clone().unwrap();
-                            let got = self.run_take("kxai", ds.take_rows(&ids, self.projection("kxai")));
+                            let got = self.run_req("kxai", Req::Rows(ids));
                             self.judge("scan_ids_resolve", "kxai", &want, &got, ln, &mut res.failures, &mut res.tags);
-                            let plan = Arc::new(self.projection("kxai").into_projection_plan(Arc::new(ds.clone())).unwrap());
-                            let b = TakeBuilder::try_new_from_addresses(Arc::new(ds.clone()), addrs, plan).unwrap();
-                            let got = self.run_take("kxai", b.execute());
+                            let got = self.run_req("kxai", Req::Addr(addrs));
                             self.judge("scan_addrs_resolve", "kxai", &want, &got, ln, &mut res.failures, &mut res.tags);
                         }
                         show_rows(&rows.iter().map(|r| project(r, "kxai")).collect::<Vec<_>>())
                     }
                     Err(e) => format!("err {e}"),
                 },
-                ["take", cols, offs] => match (valid_cols(cols), parse_nat_list(offs), self.ds.clone()) {
-                    (true, Some(offs), Some(ds)) => {
+                ["take", cols, offs] => match (valid_cols(cols), parse_nat_list(offs), self.ds.is_some()) {
+                    (true, Some(offs), true) => {
                         if offs.len() > 1 {
                             any_multi = true;
                         }
                         let scan = self.real_scan().unwrap_or_default();
                         let want: Vec<Option<SRow>> = offs.iter().map(|o| scan.get(*o as usize).cloned()).collect();
-                        let got = self.run_take(cols, ds.take(&offs, self.projection(cols)));
+                        let got = self.run_req(cols, Req::Take(offs));
                         self.judge("take", cols, &want, &got, ln, &mut res.failures, &mut res.tags);
                         got.show()
                     }
                     _ => "bad".into(),
                 },
-                ["takerows", cols, ids] => match (valid_cols(cols), parse_nat_list(ids), self.ds.clone()) {
-                    (true, Some(ids), Some(ds)) => {
+                ["takerows", cols, ids] => match (valid_cols(cols), parse_nat_list(ids), self.ds.is_some()) {
+                    (true, Some(ids), true) => {
                         if ids.len() > 1 {
                             any_multi = true;
                         }
                         let scan = self.real_scan().unwrap_or_default();
                         let by_id: BTreeMap<u64, &SRow> = scan.iter().map(|r| (r.rowid, r)).collect();
                         let want: Vec<Option<SRow>> = ids.iter().map(|i| by_id.get(i).map(|r| (*r).clone())).collect();
-                        let got = self.run_take(cols, ds.take_rows(&ids, self.projection(cols)));
+                        let got = self.run_req(cols, Req::Rows(ids));
                         self.judge("take_rows", cols, &want, &got, ln, &mut res.failures, &mut res.tags);
                         got.show()
                     }
                     _ => "bad".into(),
                 },
-                ["takeaddr", cols, addrs] => match (valid_cols(cols), parse_nat_list(addrs), self.ds.clone()) {
-                    (true, Some(addrs), Some(ds)) => {
+                ["takeaddr", cols, addrs] => match (valid_cols(cols), parse_nat_list(addrs), self.ds.is_some()) {
+                    (true, Some(addrs), true) => {
                         if addrs.len() > 1 {
                             any_multi = true;
                         }
                         let scan = self.real_scan().unwrap_or_default();
                         let by_addr: BTreeMap<u64, &SRow> = scan.iter().map(|r| (r.addr, r)).collect();
                         let want: Vec<Option<SRow>> = addrs.iter().map(|i| by_addr.get(i).map(|r| (*r).clone())).collect();
-                        let plan = Arc::new(self.projection(cols).into_projection_plan(Arc::new(ds.clone())).unwrap());
-                        let b = TakeBuilder::try_new_from_addresses(Arc::new(ds.clone()), addrs, plan).unwrap();
-                        let got = self.run_take(cols, b.execute());
+                        let got = self.run_req(cols, Req::Addr(addrs));
                         self.judge("take_addr", cols, &want, &got, ln, &mut res.failures, &mut res.tags);
                         got.show()
                     }
@@ -730,7 +794,8 @@ impl Prop for C15 {
                             any_multi = true;
                         }
                         res.tags.push(format!("map:{kind}"));
-                        match run_mapper(kind, &dv, &offs) {
+                        let mapped = if self.poisoned { Err("skipped".to_string()) } else { run_mapper(kind, &dv, &offs) };
+                        match mapped {
                             Ok(v) => {
                                 let dvs: HashSet<u64> = dv.iter().copied().collect();
                                 let want: Vec<u64> = offs.iter().map(|o| nth_live(&dvs, *o)).collect();
@@ -743,13 +808,19 @@ impl Prop for C15 {
                                 }
                                 show_nat_list(v)
                             }
+                            Err(e) if e == "skipped" => "skipped".into(),
                             Err(e) => {
                                 res.failures.push(OracleFailure {
                                     what: format!("map_offset on a non-decreasing offset list: {e}"),
                                     key: Some("map_offset_noreturn".into()),
                                     line: ln,
                                 });
-                                if e == "noreturn" { "noreturn".into() } else { "panic".into() }
+                                if e == "noreturn" {
+                                    self.poisoned = true;
+                                    "noreturn".into()
+                                } else {
+                                    "panic".into()
+                                }
                             }
                         }
                     }
